@@ -72,6 +72,40 @@ T.update({
              caught_by={"C20": "C20/mem/inv_count/GET /invocations/", "C16": "C16/differs/count_invocations, get_existing_invocations"}, missed_by={"C07": "not targeted (C07 never counts with both filters)"}),
 })
 
+
+T.update({
+ "C02b": dict(breaks=["C02"], summary="get_additional_invocations_to_run: a refactor moved the yield out of the try block and lost the `continue` of the except branch, so a poller whose REGISTERED/REROUTED/RETRY -> PENDING claim was refused still yields the invocation (the status record is right, the hand-out is not).",
+              needs="two pollers reaching the claim of the same id (duplicate queue entry, or blocking-priority list vs queue), both reading an available status before either claims.",
+              caught_by={"C02": "C02/*/handed-vs-claimed"}, missed_by={}),
+ "C03b": dict(breaks=["C03"], summary="the PersistentProcessRunner worker takes only the first item of get_invocations_to_run (next(iter(...))) and drops the generator: the re-queue of concurrency-blocked invocations, which runs after the generator's last yield, never happens; the blocked invocation stays CONCURRENCY_CONTROLLED, un-queued, for ever. No fault needed.",
+              needs="running concurrency with reroute; a worker's single poll pops a blocked invocation followed by a runnable one.",
+              caught_by={"C03": "C03/stranded/status-written-not-requeued/status=CONCURRENCY_CONTROLLED/role=None (stratum fault-free-ppr with a keyed workload of uneven work, added because of this change; with a crash in the run the same signature for role=ppr-worker is a listed crash window, so the fault-free stratum is what decides)"}, missed_by={"C03 (before fault-free-ppr)": "persistent-process workers only appeared in crash runs, where this signature is a listed known finding"}),
+ "C05b": dict(breaks=["C15", "C05"], summary="BaseClientDataStore._maybe_store skips the backend write when the content key is in the process-local LRU: after another process purged the shared store, a worker that produces the same large value again hands out a reference to a blob that no longer exists (SUCCESS observed, result unreadable).",
+              needs="an externalised value produced twice by one long-lived process, with a purge by another process / app instance in between, read by a process without the key cached.",
+              caught_by={"C15": "C15/sqlite/reference-does-not-resolve/after-purge-by-other-party/* (operation 'the other party purges, then equal content is serialised again' added because of this change)"}, missed_by={"C05": "C05's scenarios never purge (outside its quantifier); the defect is in the client data store", "C15 (before)": "no purge by the other party", "C16, C17": "single app instance per store / no re-serialisation after a purge"}),
+ "C06b": dict(breaks=["C06", "C16"], summary="MemOrchestrator.clean_up_invocation pops the whole argument-index bucket of each argument of the purged invocation instead of discarding the one id: a still-RUNNING invocation sharing an argument value disappears from the concurrency index.",
+              needs="auto_purge() of an old final invocation while another invocation with the same key is RUNNING, then a third same-key submission.",
+              caught_by={"C06": "C06/mem/two-running/* (an operator thread calling auto_purge() with a 36 ms horizon was added to 30 % of the runs because of this change)", "C16": "C16/differs/get_existing_invocations/value (thanks to the indexed key arguments added earlier)"}, missed_by={"C06 (before the purge operator)": "nothing ever purged"}),
+ "C08b": dict(breaks=["C08"], summary="SQLiteBroker.retrieve_invocation reads the head of the queue before BEGIN IMMEDIATE ('an empty queue should not take the write lock'): two retrievers read the same head row, the second deletes zero rows and returns the same id.",
+              needs="a second retriever's SELECT between the first retriever's SELECT and its DELETE/commit.",
+              caught_by={"C08": "C08/conc/sqlite/conservation/duplicated"}, missed_by={}),
+ "C09b": dict(breaks=["C09"], summary="MemBlockingControl.get_blocking_invocations snapshots only the first `limit` ids of the ready set and filters by runnable status afterwards: non-runnable ready entries (children already PENDING / RUNNING) eat the limit.",
+              needs="a ready set larger than the limit containing waited-on invocations in a non-runnable, non-final status ahead of runnable ones.",
+              caught_by={"C09": "C09/graph/mem/misses-blocking"}, missed_by={}),
+ "C10b": dict(breaks=["C10"], summary="MemStateBackend._add_histories replaces list.append by read - sort - store back ('sort on write'): two history writers of one invocation that overlap lose one entry.",
+              needs="writer A between its snapshot and its store while writer B runs in full (a few byte codes wide under the GIL).",
+              caught_by={"C10": "C10/mem/missing/* (the in-memory poll scenarios now pre-empt at line level inside the state backend too; before, history writers could only be delayed as a whole)"}, missed_by={"C10 (before)": "no pre-emption point inside the in-memory state backend"}),
+ "C13b": dict(breaks=["C13"], summary="MemTrigger.clear_valid_conditions builds a filtered copy of the pending-occurrence map and rebinds it: an occurrence recorded by another thread between the copy and the rebind is lost (launches zero times).",
+              needs="an occurrence report landing between the copy and the rebind inside clear_valid_conditions of a loop iteration that has something to clear.",
+              caught_by={"C13": "C13/conc/mem/lost/* (live reports are now spread over the whole loop duration or released by a hook while a loop thread is inside clear_valid_conditions / get_valid_conditions / claim_trigger_run; 400 quick runs)"}, missed_by={"C13 (before)": "live reports all landed within the first 2 ms of the loops"}),
+ "C18b": dict(breaks=["C18"], summary="DeterministicExecutor memoises recorded sub-invocations in a mutable class attribute keyed by call id only: after workflow A replayed execute_task(child, x), workflow B issuing the identical call in the same process gets A's sub-invocation and never launches its own.",
+              needs="a replay in workflow A followed by the identical helper call of another workflow of the same task in the same process.",
+              caught_by={"C18": "C18/*/replay-differs/task, subtask-launched-twice"}, missed_by={}),
+ "C19b": dict(breaks=["C19"], summary="set_invocation_retry re-queues before it increments the retry counter: a slow worker in that window lets the next attempt read a stale counter and get one retry too many. (patch.orig.diff is the agent's diff against 9a38ceb; patch.diff is the same edit rebased onto the fix 0265987 that this change led to.)",
+              needs="the failing attempt's thread stalled between route and increment for one runner poll plus one body execution.",
+              caught_by={"C19": "C19/*/executions/* (worker-stall and slow-hand-over faults added because of this change; they found the same race in the unchanged code through the blocking-invocations path: fix 0265987)"}, missed_by={"C19 (before the stall faults)": "virtual time did not pass inside a worker's hand-over, so the window was never held open"}),
+})
+
 def main():
     suite = {}
     p = os.path.join(V, "seeded", "suite_results.json")
@@ -86,7 +120,7 @@ def main():
         if os.path.exists(crp):
             cr = json.load(open(crp))
         meta = {"id": sid, "breaks": t["breaks"], "summary": t["summary"], "needs_to_manifest": t["needs"],
-                "files": {"patch": "patch.diff", "demonstration": f"demo_{sid}.py"},
+                "files": {"patch": "patch.diff", "demonstration": f"demo_{sid[:3]}.py"},
                 "origin": "fresh sub-agent given only the property text and its own scratch worktree of /repo (nothing from /verif)",
                 "confirmed": {"demo_fails_with_change": True, "demo_passes_without_change": True, "suite": suite.get(sid, "not yet run")},
                 "what_i_ran": COMMON_RAN, "caught_by": t["caught_by"], "missed_by": t["missed_by"], "last_check_runs": cr,
